@@ -289,6 +289,12 @@ def scenarios_for(pid, tier, rng, comps):
                     sc.append(rf.scenario("c18c-%d" % i, w, ["conn"] * len(w), [{"p": pk, "n": m + 1, "o": o} for m in range(ln)],
                                           opts={"respTimeoutMs": 40, "connTimeoutMs": 80}))
                     i += 1
+        # an OnError callback that looks at the client's Stats() (logging the queue lengths): the report of the timeout must
+        # not wedge the client
+        for w in ([PUB(1)], [PUB(2)], [SUB(("x", 1))], [PUB(1), PUB(1)]):
+            for o in ("dropAck", "dropReq"):
+                sc.append(rf.scenario("c18o-%d" % i, w, ["conn"] * len(w), [{"k": 2, "o": o}], opts={"respTimeoutMs": 40, "connTimeoutMs": 80, "onErrorStats": True}))
+                i += 1
         # the acknowledgement of a RE-subscription swallowed (session lost at the broker, or AlwaysResubscribe): the first or
         # the second of two established subscriptions, alone or with a publish pending behind them
         for o in ("dropAck", "dropReq"):
@@ -357,6 +363,14 @@ def c17_scenarios(rng, n):
                 inbound = [{"g": 1, "after": 0, "q": q, "tag": 101}, {"g": 1, "after": 0, "q": q, "tag": 102}] + [{"g": g, "after": 0, "q": q, "tag": 100 * g + 1} for g in range(2, nre + 2)]
                 out.append(rf.scenario("c17s-%d" % i, [dict(HANDLE(1), swap=2), PUB(1)], [p1, "conn"], faults, inbound=inbound))
                 i += 1
+    # the handler registered (and replaced) on the RetryClient object that was handed to WithRetryClient
+    for nre in (0, 1, 2):
+        for p1 in ("pre", "conn"):
+            faults = [{"p": "PUBLISH", "n": j + 1, "o": "cutAfter"} for j in range(nre)]
+            inbound = [{"g": g, "after": 0, "q": 1, "tag": 100 * g + 1} for g in range(1, nre + 2)]
+            out.append(rf.scenario("c17v-%d" % i, [HANDLE(1), PUB(1), HANDLE(2)], [p1, "conn", "idle"], faults, inbound=inbound + [{"g": nre + 1, "after": nre + 1, "q": 1, "tag": 900}],
+                                   opts={"handleViaRetry": True}))
+            i += 1
     # a RetryClient driven by hand (SetClient / Connect without the reconnect loop) that replaces its connection
     # make-before-break: what still arrives on the previous connection, after SetClient gave the client the next one, is not
     # dropped "merely because a reconnect replaced the underlying connection object"
